@@ -46,6 +46,28 @@ define_ops! {
     bigint_from = |a: U| { let x = BigInt::from(a); (x.sign() != Sign::Minus, x.to_bytes_le().1, BigInt::from(&a).to_bytes_le().1) };
     pg_to_sql = |a: U, t: N| { let mut out = bytes::BytesMut::new(); match postgres_types::ToSql::to_sql(&a, &PG_TYPES[t], &mut out) { Ok(_) => V::some(V::Bytes(out.to_vec())), Err(_) => V::None } };
     pg_accepts = |t: N| (<Uint<B, L> as postgres_types::ToSql>::accepts(&PG_TYPES[t]), <Uint<B, L> as postgres_types::FromSql>::accepts(&PG_TYPES[t]));
+    // two values written back to back into ONE pre-filled buffer through the streaming APIs (multi-step sequence)
+    seq_alloy = |a: U, b: U| { let mut o = vec![0xEEu8]; alloy_rlp::Encodable::encode(&a, &mut o); alloy_rlp::Encodable::encode(&b, &mut o); o };
+    seq_fastrlp03 = |a: U, b: U| { let mut o = vec![0xEEu8]; fastrlp_03::Encodable::encode(&a, &mut o); fastrlp_03::Encodable::encode(&b, &mut o); o };
+    seq_fastrlp04 = |a: U, b: U| { let mut o = vec![0xEEu8]; fastrlp_04::Encodable::encode(&a, &mut o); fastrlp_04::Encodable::encode(&b, &mut o); o };
+    seq_rlp = |a: U, b: U| { let mut st = rlp::RlpStream::new_list(2); st.append(&a); st.append(&b); st.out().to_vec() };
+    seq_scale = |a: U, b: U| { let mut o = vec![0xEEu8]; parity_scale_codec::Encode::encode_to(&a, &mut o); parity_scale_codec::Encode::encode_to(&b, &mut o); o };
+    seq_compact = |a: U, b: U| { let mut o = vec![0xEEu8]; parity_scale_codec::Encode::encode_to(&CompactRefUint(&a), &mut o); parity_scale_codec::Encode::encode_to(&CompactRefUint(&b), &mut o); o };
+    seq_ssz = |a: U, b: U| { let mut o = vec![0xEEu8]; ssz::Encode::ssz_append(&a, &mut o); ssz::Encode::ssz_append(&b, &mut o); o };
+    seq_borsh = |a: U, b: U| { let mut o = vec![0xEEu8]; borsh::BorshSerialize::serialize(&a, &mut o).unwrap(); borsh::BorshSerialize::serialize(&b, &mut o).unwrap(); o };
+    seq_bincode = |a: U, b: U| bincode::serialize(&(a, b)).map_err(|_| ());
+    seq_json = |a: U, b: U| serde_json::to_string(&(a, b)).map(String::into_bytes).map_err(|_| ());
+    seq_der = |a: U, b: U| { let mut o = vec![0xEEu8]; der::Encode::encode_to_vec(&a, &mut o).unwrap(); der::Encode::encode_to_vec(&b, &mut o).unwrap(); o };
+    // sequential decoding of two items from one buffer (cursor decoders)
+    seq_alloy_dec = |s: BY| { let mut b = &s[..]; let x = <Uint<B, L> as alloy_rlp::Decodable>::decode(&mut b); let y = <Uint<B, L> as alloy_rlp::Decodable>::decode(&mut b); (opt(x), opt(y), b.len()) };
+    seq_fastrlp04_dec = |s: BY| { let mut b = &s[..]; let x = <Uint<B, L> as fastrlp_04::Decodable>::decode(&mut b); let y = <Uint<B, L> as fastrlp_04::Decodable>::decode(&mut b); (opt(x), opt(y), b.len()) };
+    seq_scale_dec = |s: BY| { let mut b = &s[..]; let x = <Uint<B, L> as parity_scale_codec::Decode>::decode(&mut b); let y = <Uint<B, L> as parity_scale_codec::Decode>::decode(&mut b); (opt(x), opt(y), b.len()) };
+    seq_compact_dec = |s: BY| { let mut b = &s[..]; let x = <CompactUint<B, L> as parity_scale_codec::Decode>::decode(&mut b).map(|x| x.0); let y = <CompactUint<B, L> as parity_scale_codec::Decode>::decode(&mut b).map(|x| x.0); (opt(x), opt(y), b.len()) };
+    seq_borsh_dec = |s: BY| { let mut b = &s[..]; let x = <Uint<B, L> as borsh::BorshDeserialize>::deserialize_reader(&mut b); let y = <Uint<B, L> as borsh::BorshDeserialize>::deserialize_reader(&mut b); (opt(x), opt(y), b.len()) };
+    seq_bincode_dec = |s: BY| opt(bincode::deserialize::<(Uint<B, L>, Uint<B, L>)>(&s));
+    seq_json_dec = |s: BY| opt(serde_json::from_slice::<(Uint<B, L>, Uint<B, L>)>(&s));
+    seq_rlp_dec = |s: BY| opt(rlp::decode_list::<Uint<B, L>>(&s).into_iter().map(Ok::<_, ()>).collect::<Result<Vec<_>, ()>>().map(|v| V::L(v.into_iter().map(|x| x.into_v()).collect())));
+    seq_ssz_vec = |a: U, b: U| { let v = vec![a, b]; let e = ssz::Encode::as_ssz_bytes(&v); let d = <Vec<Uint<B, L>> as ssz::Decode>::from_ssz_bytes(&e).ok().map(|x| V::L(x.into_iter().map(|y| y.into_v()).collect())); (e, d) };
     // ------------------------------------------------------------ decoders (C16 round trips, C17 totality)
     json_dec = |s: BY| opt(serde_json::from_slice::<Uint<B, L>>(&s));
     json_bits_dec = |s: BY| opt(serde_json::from_slice::<Bits<B, L>>(&s));
@@ -78,7 +100,7 @@ define_ops! {
 }
 
 dispatch_widths!(dispatch, call, Op;
-    0, 1, 7, 8, 9, 16, 60, 63, 64, 65, 120, 127, 128, 129, 160, 250, 255, 256, 257, 384, 440, 441, 448, 512, 528, 535);
+    0, 1, 7, 8, 9, 16, 60, 63, 64, 65, 120, 127, 128, 129, 160, 250, 255, 256, 257, 384, 440, 441, 448, 512, 528, 535, 1024);
 
 fn u(v: &BigUint, bits: usize) -> V {
     V::U(to_limbs(v, bits))
@@ -319,6 +341,51 @@ fn model(bits: usize, op: Op, args: &[V]) -> Expect {
             let yes = t < 17;
             is(V::T(vec![V::B(yes), V::B(yes)]))
         }
+        seq_alloy | seq_fastrlp03 | seq_fastrlp04 | seq_scale | seq_compact | seq_ssz | seq_borsh | seq_der | seq_rlp | seq_bincode | seq_json | seq_ssz_vec => {
+            let (x, y) = (a(), big(args[1].limbs()));
+            let enc = |v: &BigUint| -> Vec<u8> {
+                match op {
+                    seq_alloy | seq_fastrlp03 | seq_fastrlp04 | seq_rlp => rc::rlp(v),
+                    seq_scale => rc::scale_bytes(&rc::fixed_le(v, nb)),
+                    seq_compact => rc::compact(v),
+                    seq_ssz | seq_borsh | seq_ssz_vec => rc::fixed_le(v, nb),
+                    seq_der => rc::der(v),
+                    seq_bincode => rc::bincode(v, nb),
+                    _ => rc::json_quantity(v).into_bytes(),
+                }
+            };
+            let mut e: Vec<u8> = match op {
+                seq_rlp | seq_bincode | seq_json | seq_ssz_vec => vec![],
+                _ => vec![0xEE],
+            };
+            if op == seq_json {
+                e.extend(b"[");
+            }
+            e.extend(enc(&x));
+            if op == seq_json {
+                e.extend(b",");
+            }
+            e.extend(enc(&y));
+            if op == seq_json {
+                e.extend(b"]");
+            }
+            match op {
+                seq_rlp => {
+                    // list header + two items
+                    let payload = e;
+                    let mut o = if payload.len() < 56 { vec![0xc0 + payload.len() as u8] } else { let l = rc::be_min(&BigUint::from(payload.len())); let mut o = vec![0xf7 + l.len() as u8]; o.extend(l); o };
+                    o.extend(payload);
+                    is(by(o))
+                }
+                seq_bincode | seq_json => is(V::ok(by(e))),
+                // a list of zero-length items cannot be counted from its (empty) encoding: no claim at 0 bits
+                seq_ssz_vec if bits == 0 => dont_care(),
+                seq_ssz_vec => is(V::T(vec![by(e), V::some(V::L(vec![u(&x, bits), u(&y, bits)]))])),
+                _ => is(by(e)),
+            }
+            .nt(true)
+        }
+        seq_alloy_dec | seq_fastrlp04_dec | seq_scale_dec | seq_compact_dec | seq_borsh_dec | seq_bincode_dec | seq_json_dec | seq_rlp_dec => dont_care(),
         // ---------------------------------------------------------------- decoders
         json_dec | json_bits_dec => from3(json_denotes(s()), bits, true),
         bincode_dec | bincode_bits_dec => may_accept(bits, rc::bincode_denotes(s()).map(|x| x.0), None, true),
@@ -431,10 +498,32 @@ fn roundtrips(l: &mut Local, bits: usize, v: &BigUint) {
 
 fn c16_values(r: &Runner, bits: usize) -> (Vec<Limbs>, String) {
     // the mode-boundary universe P(B) is part of every candidate of `pick`
-    pick(bits, if r.is_thorough() { 20_000 } else { 2_500 }, &salt(r.seed))
+    let (mut v, d) = pick(bits, if r.is_thorough() { 20_000 } else { 2_500 }, &salt(r.seed));
+    // decimal mode boundaries (NUMERIC digits are base 10000, texts are decimal): 10^k, c * 10000^k and neighbours
+    let m = pow2(bits);
+    let mut p = BigUint::from(1u32);
+    while p < m {
+        for c in [1u32, 2, 9, 10, 9999] {
+            for dl in [-1i32, 0, 1] {
+                let x = &p * c;
+                let x = if dl < 0 { if x.is_zero() { continue } else { x - 1u32 } } else { x + dl as u32 };
+                if x < m {
+                    v.push(to_limbs(&x, bits));
+                }
+            }
+        }
+        let q = &p * &p * 10000u32 + &p; // digits with zero runs in between
+        if q < m {
+            v.push(to_limbs(&q, bits));
+        }
+        p *= 10u32;
+    }
+    v.sort_by(|a, b| a.iter().rev().cmp(b.iter().rev()));
+    v.dedup();
+    (v, format!("{d}+decimal boundaries"))
 }
 
-const W_Q: &[usize] = &[0, 1, 7, 8, 9, 16, 60, 63, 64, 65, 127, 128, 129, 160, 250, 256, 257, 440, 441, 448, 512, 535];
+const W_Q: &[usize] = &[0, 1, 7, 8, 9, 16, 60, 63, 64, 65, 127, 128, 129, 160, 250, 256, 257, 440, 441, 448, 512, 535, 1024];
 
 fn c16(r: &Runner) {
     r.set_rule("values: the mode-boundary universe 2^k + d for EVERY k <= BITS (contains 0, 0x7f/0x80, 2^6, 2^14, 2^30, every 2^(8j)-1 / 2^(8j), the 55/56-byte RLP boundary at 2^440, MAX) united with S(B) for B <= 12 resp. the limb-alphabet product and run shapes (small values in wide types); widths incl. 0, non-byte-aligned, the 60/250-bit class, 440/441/448 (RLP long form), 528/535 (compact bound). per value: every encoder's bytes = the independent reference codec; advertised lengths exact, size hints within one prefix word, maxima not below a produced length; decode(encoding) = value for every decoder; postgres round trip for every non-float column type whose encoding succeeds; primitive-types / bytemuck / ark-ff conversions at their fixed widths; where the codec crate encodes u64/u128 itself the bytes are compared with that encoding too. every case is non-trivial");
@@ -454,6 +543,36 @@ fn c16(r: &Runner) {
                 exec(l, bits, Op::pg_to_sql, &[a.clone(), V::n(t)]);
             }
             roundtrips(l, bits, &v);
+            // two values back to back: this value and its successor in the universe
+            let w = big(&vals[(i + 1) % vals.len()]);
+            let bw = vu(&vals[(i + 1) % vals.len()]);
+            for op in [Op::seq_alloy, Op::seq_fastrlp03, Op::seq_fastrlp04, Op::seq_rlp, Op::seq_scale, Op::seq_ssz, Op::seq_borsh, Op::seq_bincode, Op::seq_json, Op::seq_der, Op::seq_ssz_vec] {
+                exec(l, bits, op, &[a.clone(), bw.clone()]);
+            }
+            if bits < 536 {
+                exec(l, bits, Op::seq_compact, &[a.clone(), bw.clone()]);
+            }
+            // sequential decoding of the two reference encodings
+            {
+                let nbb = (bits + 7) / 8;
+                let (va, vb) = (u(&v, bits), u(&w, bits));
+                let mut seqdec = |l: &mut Local, op: Op, input: Vec<u8>, cursor: bool| {
+                    let args = [V::Bytes(input)];
+                    let got = l.guard(op.name(), op.src(), bits, &args, || dispatch(bits, op, &args));
+                    let e = if cursor { V::T(vec![V::some(va.clone()), V::some(vb.clone()), V::n(0)]) } else { V::some(V::T(vec![va.clone(), vb.clone()])) };
+                    l.record(op.name(), op.src(), bits, &args, got, is(e).nt(true));
+                };
+                let cat = |x: Vec<u8>, y: Vec<u8>| { let mut o = x; o.extend(y); o };
+                seqdec(l, Op::seq_alloy_dec, cat(rc::rlp(&v), rc::rlp(&w)), true);
+                seqdec(l, Op::seq_fastrlp04_dec, cat(rc::rlp(&v), rc::rlp(&w)), true);
+                seqdec(l, Op::seq_scale_dec, cat(rc::scale_bytes(&rc::fixed_le(&v, nbb)), rc::scale_bytes(&rc::fixed_le(&w, nbb))), true);
+                if bits < 536 {
+                    seqdec(l, Op::seq_compact_dec, cat(rc::compact(&v), rc::compact(&w)), true);
+                }
+                seqdec(l, Op::seq_borsh_dec, cat(rc::fixed_le(&v, nbb), rc::fixed_le(&w, nbb)), true);
+                seqdec(l, Op::seq_bincode_dec, cat(rc::bincode(&v, nbb), rc::bincode(&w, nbb)), false);
+                seqdec(l, Op::seq_json_dec, format!("[{},{}]", rc::json_quantity(&v), rc::json_quantity(&w)).into_bytes(), false);
+            }
             // second opinion: the codec crates' own encodings of the equal primitive
             if v.bits() <= 128 {
                 let p: u128 = v.iter_u64_digits().enumerate().map(|(i, d)| (d as u128) << (64 * i)).sum();
@@ -701,7 +820,7 @@ fn valid_encodings(bits: usize, v: &BigUint) -> Vec<Vec<u8>> {
 
 fn c17(r: &Runner) {
     r.set_rule("every input goes to EVERY decoder (cross-format confusion included): (a) ALL byte strings of length 0..=2 (3 thorough, at widths <= 16); (b) every valid encoding (RLP, DER, JSON quantity / decimal text, NUMERIC, JSONB, SCALE fixed and compact, bincode, fixed LE/BE at BYTES and BYTES+1, VARBIT, non-minimal RLP/DER forms) of every value of the codec value universe and of the out-of-range values 2^B, 2^B+1, 2^B*256, with every single-field mutation: each truncation, one byte appended, each of the first 12 / last 3 bytes replaced by {00,01,7f,80,ff,+1,-1}, a zero inserted near the front with and without bumping the preceding length byte; (c) postgres header fields over boundary values. oracle: a reference reader per format says what the bytes denote; the outcome must be an error or exactly that value, < 2^BITS, canonical; for alloy-rlp, fastrlp, DER an accepted input must equal the reference encoding of its value (non-minimal forms rejected). every case is non-trivial");
-    let ws: &[usize] = if r.is_thorough() { WIDTHS } else { &[0, 1, 7, 8, 9, 16, 60, 63, 64, 65, 127, 128, 250, 256, 257, 440, 448, 535] };
+    let ws: &[usize] = if r.is_thorough() { WIDTHS } else { &[0, 1, 7, 8, 9, 16, 60, 63, 64, 65, 127, 128, 250, 256, 257, 440, 448, 535, 1024] };
     for &bits in ws {
         let maxlen = if r.is_thorough() && bits <= 16 { 3 } else { 2 };
         let total: usize = (0..=maxlen).map(|k| 1usize << (8 * k)).sum();
@@ -776,6 +895,17 @@ fn c17(r: &Runner) {
                 pg.push((t, txt.as_bytes().to_vec()));
             }
         }
+        // IEEE special values as FLOAT4 / FLOAT8 wire bytes (and, like every input, for every other decoder below)
+        let mut floats: Vec<Vec<u8>> = vec![];
+        for f in [0.0f64, -0.0, 0.5, 1.0, 1.5, -1.0, 255.0, 256.0, 4503599627370497.0, 9007199254740991.0, f64::MAX, f64::MIN_POSITIVE, 5e-324, f64::INFINITY, f64::NEG_INFINITY, f64::NAN, (bits.min(1023) as f64).exp2(), (bits.min(1023) as f64).exp2() - 1.0, ((bits.min(1023)) as f64).exp2() * 0.75] {
+            floats.push(f.to_be_bytes().to_vec());
+            floats.push((f as f32).to_be_bytes().to_vec());
+        }
+        floats.sort();
+        floats.dedup();
+        r.universe(&format!("IEEE special values as wire bytes ({} inputs) -> every decoder", floats.len()), bits, floats.len(), |i, l| {
+            decode_all(l, bits, &floats[i]);
+        });
         r.universe(&format!("postgres header fields / texts ({} inputs)", pg.len()), bits, pg.len(), |i, l| {
             l.states(1);
             exec(l, bits, Op::pg_from_sql, &[V::n(pg[i].0), V::Bytes(pg[i].1.clone())]);
